@@ -151,6 +151,11 @@ def source_facts():
             for c in pyast.walk(n):
                 if isinstance(c, pyast.Call) and getattr(c.func, "id", "") == "_abort":
                     aborts["validation"] = c
+        # since the N1 fix the syntax abort happens after the parsing `finally`: `if syntax_error is not None: return _abort(...)`
+        if isinstance(n, pyast.If) and pyast.unparse(n.test) == "syntax_error is not None":
+            for c in pyast.walk(n):
+                if isinstance(c, pyast.Call) and getattr(c.func, "id", "") == "_abort":
+                    aborts["GraphQLSyntaxError"] = c
     want = {"GraphQLSyntaxError": "abortSyntax", "validation": "abortValidation",
             "VariablesCoercionError": "abortCoercion", "ExecutionError": "abortExecution"}
     if set(aborts) != set(want):
